@@ -59,6 +59,11 @@ def apply_rewrite(points, rw):
     return m.points
 
 
+def open_kwargs(case):
+    """Constructor options of the database under test (the post-mortem reopen always uses the defaults: "w+" would truncate)."""
+    return {"access_mode": case["access_mode"]} if case.get("access_mode") else {}
+
+
 @st.composite
 def cases(draw):
     pts = gen.points()
@@ -79,7 +84,8 @@ def cases(draw):
     )
     seed_pts = draw(st.lists(pts, min_size=1, max_size=5))
     ops = [["insert_multiple", seed_pts, 0, "asis", "db", None, "m1"]] + draw(st.lists(setup_one, max_size=4)) + [draw(target)]
-    return {"ops": ops, "auto_index": draw(st.booleans()), "reads": draw(st.lists(st.integers(0, len(READ_Q) - 1), min_size=2, max_size=4)), "after_insert": draw(pts), "after_rewrite": draw(st.integers(0, len(REWRITES) - 1)), "pick": draw(st.integers(0, 10**6)), "prime": draw(st.booleans())}
+    return {"ops": ops, "auto_index": draw(st.booleans()), "reads": draw(st.lists(st.integers(0, len(READ_Q) - 1), min_size=2, max_size=4)), "after_insert": draw(pts), "after_rewrite": draw(st.integers(0, len(REWRITES) - 1)), "pick": draw(st.integers(0, 10**6)), "prime": draw(st.booleans()),
+            "access_mode": draw(st.sampled_from([None, None, None, "w+"]))}
 
 
 class _R:
@@ -190,7 +196,7 @@ def record(case, ctx):
     w = iolayer.World(path, mode="record")
     try:
         with iolayer.installed(w):
-            db = TinyFlux(path, auto_index=case["auto_index"])
+            db = TinyFlux(path, auto_index=case["auto_index"], **open_kwargs(case))
             m = model.Model()
             try:
                 for i, op in enumerate(case["ops"]):
@@ -301,7 +307,7 @@ def run_fault(case, k, when, events, s0, ctx, acc):
     info = {"case": fcase, "where": where}
     try:
         with iolayer.installed(w):
-            db = TinyFlux(path, auto_index=case["auto_index"])
+            db = TinyFlux(path, auto_index=case["auto_index"], **open_kwargs(case))
             m = model.Model()
             try:
                 for op in case["ops"][:-1]:
@@ -425,6 +431,7 @@ def run_case(case, ctx, acc, everything=False, only=None):
             acc.nt([case["ops"][-1][0], kind, role, when, k - s0])
             n_nt += 1
     acc.cls("target:" + case["ops"][-1][0])
+    acc.cls("access_mode:%s" % (case.get("access_mode") or "default"))
     return n_nt
 
 
@@ -447,7 +454,7 @@ def run_shard(spec, ctx):
 
 def minimize(v, ctx, budget=40):
     """Drop setup operations while the same kind of failure remains (any fault position)."""
-    base = {k: v.case[k] for k in ("ops", "auto_index", "reads", "after_insert", "after_rewrite", "pick", "prime") if k in v.case}
+    base = {k: v.case[k] for k in ("ops", "auto_index", "reads", "after_insert", "after_rewrite", "pick", "prime", "access_mode") if k in v.case}
     ops = list(base["ops"])
     best = v
     i = 0
@@ -469,7 +476,7 @@ def minimize(v, ctx, budget=40):
 
 
 def replay(sub, case, ctx):
-    base = {k: case[k] for k in ("ops", "auto_index", "reads", "after_insert", "after_rewrite", "pick", "prime") if k in case}
+    base = {k: case[k] for k in ("ops", "auto_index", "reads", "after_insert", "after_rewrite", "pick", "prime", "access_mode") if k in case}
     if "fault_step" in case:
         events, s0, s1 = record(base, ctx)
         k = case["fault_step"]
